@@ -206,10 +206,12 @@ F3f == UNION {{Prog("F3f", <<S(Asg("=", r, v)), S(Asg(sh, w, Num(1))), t>>) : v 
           r \in {Var("X"), Var("c")}}
 \* F8i: an element is tested, an element that may be the same one (spelled differently: constant index, X, Y) is modified, and the
 \* first is tested again: the second test must see the new value
-F8i == UNION {{Prog("F8i", <<Set("X", 1), Set("Y", 1), If(Bin("==", l, Num(3)), <<m, If(Bin("==", l, Num(n2)), <<Set("c", 1)>>, <<Set("c", 2)>>)>>, <<Set("c", 3)>>)>>) : n2 \in {4, 2, 6},
+F8i == UNION {{Prog("F8i", <<Set("X", 1), Set("Y", 1), If(Bin("==", l, Num(3)), <<m, If(Bin("==", l, Num(n2)), <<Set("c", 1)>>, <<Set("c", 2)>>)>>, <<Set("c", 3)>>)>>) : n2 \in {4, 2, 6, 1},
           m \in {S(Inc(FALSE, 1, Idx("arr", Num(1)))), S(Inc(FALSE, 1, Idx("arr", Var("X")))), S(Inc(FALSE, 1, Idx("arr", Var("Y")))), S(Inc(FALSE, -1, Idx("arr", Num(1)))),
                   S(Asg("<<", Idx("arr", Num(1)), Num(1))), S(Asg("<<", Idx("arr", Var("X")), Num(1))), S(Asg("+", Idx("arr", Var("Y")), Num(1))),
-                  S(Asg("=", Idx("arr", Num(1)), Num(4))), S(Asg("=", Idx("arr", Var("X")), Num(4)))}} :
+                  S(Asg("=", Idx("arr", Num(1)), Num(4))), S(Asg("=", Idx("arr", Var("X")), Num(4))),
+                  \* stores that leave the accumulator alone
+                  S(Asg("=", Idx("arr", Num(1)), Var("Y"))), S(Asg("=", Idx("arr", Var("X")), Var("Y"))), S(Asg("=", Idx("arr", Var("Y")), Var("X")))}} :
           l \in {Idx("arr", Var("X")), Idx("arr", Num(1)), Idx("arr", Var("Y"))}}
 \* F5d: a function with several returns of constants, followed by a constant assignment (a belief held on one return
 \* path must not reach the code after the call, in particular once the function is expanded inline)
